@@ -2816,6 +2816,17 @@ func (p *Parser) currentCommandDefaultBinaryOp() (ast.BinOp, int) {
 
 // parseUnary parses unary expressions (!, -)
 func (p *Parser) parseUnary() (ast.Expr, error) {
+	// A chain of prefix operators (!!!!... or ----...) recurses here without
+	// passing through parseExpr, so it needs the depth guard as well: a file
+	// of a million '!' ran the parser's goroutine out of stack.
+	if p.check(BANG) || p.check(MINUS) {
+		p.depth++
+		if p.depth > maxParseDepth {
+			return nil, fmt.Errorf("maximum nesting depth exceeded (%d levels)", maxParseDepth)
+		}
+		defer func() { p.depth-- }()
+	}
+
 	// Check for unary NOT operator
 	if p.check(BANG) {
 		tok := p.current()
